@@ -190,13 +190,18 @@ def rule_remove_idx(ctx, crate, rule="R-MULTI-REMOVE"):
     b = K.find_one(ctx, crate, rule, r"multi::MultiState::remove_idx")
     if not b:
         return
-    cont = b.calls(r"core::slice::<impl \[T\]>::contains")
     guard_true = []
+    effect_bbs = {c.bb for c in b.calls(r"std::vec::Vec::<T, A>::(push|retain|insert|remove)", r"std::ops::IndexMut::index_mut")}
     for sb, t in b.switches():
         sl = b.slice(t["op"], at=sb)
-        if sl.has_call(r"core::slice::<impl \[T\]>::contains") and sl.has_field("free_set", MS):
-            guard_true.append((sb, t["otherwise"]))
-    ctx.check(bool(guard_true), rule, "double-remove-guard", b.name, K.fn_loc(b), "removal of an already free slot is a no-op (free_set.contains)",
+        if not sl.has_field("free_set", MS):
+            continue
+        uses_idx = 2 in sl.params() or any(a[0] == "closure" for a in sl.atoms)
+        for x in b.succ(sb):
+            # the "already free" edge: reaches the return without any effect
+            if uses_idx and not (b.reach([x]) & effect_bbs):
+                guard_true.append((sb, x))
+    ctx.check(bool(guard_true), rule, "double-remove-guard", b.name, K.fn_loc(b), "removal of an already free slot is a no-op (test on free_set and idx)",
               "remove_idx no longer guards against freeing a slot twice", cfg)
     push = [c for c, k in uses_of_field_ref(b, "free_set") if c.matches(r"std::vec::Vec::<T, A>::push") and k == 0]
     ret = [c for c, k in uses_of_field_ref(b, "ordering") if c.matches(r"std::vec::Vec::<T, A>::retain") and k == 0]
